@@ -183,8 +183,10 @@ EvLoop(nd, st, d, C, it, lvv) ==
                      ELSE <<>>
              s2 == [s1 EXCEPT !.unr = st.unr \o bind \o s1.unr]
              stop == nd.form = "until" /\ s2.err = "-" /\ EvalE(nd.cond, s2.sc) # 0
-         IN IF s2.err # "-" \/ stop THEN s2
+         \* the pass just made counts towards the limit, whether or not `until` ends the loop
+         IN IF s2.err # "-" THEN s2
             ELSE IF it + 1 > s2.lim.ll THEN [s2 EXCEPT !.err = "loop"]
+            ELSE IF stop THEN s2
             ELSE EvLoop(nd, s2, d, C, it + 1, lvv + nd.step)
 
 \* reference graph of the rendered leaves: unsatisfiable when a target is
